@@ -143,6 +143,14 @@ def shared_logl(x, offset=7.0, tgt=None):
     return tgt._logl_point(x) + offset
 
 
+GLOBAL_TARGET = None
+
+
+def global_logl(x):
+    """Module-level likelihood over module-level data: the user rebinds GLOBAL_TARGET between two fits in one process."""
+    return GLOBAL_TARGET._logl_point(x)
+
+
 class FaultyPool:
     """Pool-like object whose map() fails ONCE, part-way through a batch (a lost worker): the points evaluated before the failure
     WERE evaluated.  The library may let the error propagate (the run dies: fine) - but if it carries on, its call count must still
@@ -183,6 +191,16 @@ def build_sampler(conf: dict, rec: psrun.Recorder | None, out_dir=None):
         ll, vec, bd = tgt.logl_vector_reuse, True, None
     elif ev == "vector_f32":   # a vectorised likelihood that returns a single-precision batch (GPU / JAX style)
         ll, vec, bd = (lambda X, _f=tgt.logl_vector: np.asarray(_f(X)).astype(np.float32)), True, None
+    elif ev == "scalar_f32":   # one point at a time, each value a numpy single-precision SCALAR (jax / torch / float32 pipelines)
+        ll, vec, bd = (lambda x, _f=tgt._logl_point: np.float32(_f(x))), False, None
+    elif ev == "scalar_r32":   # the same values as python floats
+        ll, vec, bd = (lambda x, _f=tgt._logl_point: float(np.float32(_f(x)))), False, None
+    elif ev == "vector_r32":   # the same values as one double-precision batch
+        ll, vec, bd = (lambda X, _f=tgt.logl_vector: np.asarray(_f(X)).astype(np.float32).astype(np.float64)), True, None
+    elif ev == "global":       # a module-level likelihood that reads module-level data (what a pool's workers see depends on when they were started)
+        global GLOBAL_TARGET
+        GLOBAL_TARGET = tgt
+        ll, vec, bd = global_logl, False, None
     elif ev == "blobs":
         ll, vec, bd = tgt.logl_blob, False, "float"
     elif ev == "blobs_f4":   # one scalar blob stored in single precision (pairs only: the recorder's blob provenance assumes float64)
